@@ -27,6 +27,7 @@ class Site:
     def __init__(self):
         self.pages = {}
         self.start = '/'
+        self.inputs = 0          # N further input URLs /u0 .. /u(N-1) on the command line (a long --input-file)
 
     def to_server(self):
         out = {}
@@ -50,13 +51,19 @@ class Site:
         d = {p: {k: v for k, v in d.items()} for p, d in self.pages.items()}
         if self.start != '/':
             d['__start__'] = self.start
+        if self.inputs:
+            d['__inputs__'] = self.inputs
         return d
+
+    def start_urls(self):
+        return ['http://%s%s' % (HOST, self.start)] + ['http://%s/u%d' % (HOST, i) for i in range(self.inputs)]
 
     @classmethod
     def from_desc(cls, desc):
         s = cls()
         desc = dict(desc)
         s.start = desc.pop('__start__', '/')
+        s.inputs = desc.pop('__inputs__', 0)
         for p, d in desc.items():
             d = dict(d)
             if 'links' in d:
